@@ -128,12 +128,30 @@ func genC10(r *Rand, tier string, ord int) *Trial {
 			n, kind = r.Range(300, 600), "generated-many-hundreds"
 		}
 	}
+	wide := !many && r.P(0.004)
+	if wide { // widths around powers of two (gen.go, scale), runs of ambiguity at the edges of 64/256/1024-column blocks
+		w, n, kind = scaleWidthUpTo(r, 13), r.Range(1, 4), "generated-wide"
+		if r.P(0.15) {
+			w = scaleWidth(r)
+		}
+	}
 	ref := genRefSeq(r, w)
-	if r.P(0.15) {
+	if r.P(0.15) && !wide {
 		ref = mutate(r, ref, profFull, 0)
 	}
-	q := genAln(r, ref, alnSpec{W: w, N: n, Prof: -1, SNP: 0.15, Prefix: "q", AllN: 0.08})
-	if !many {
+	var q Aln
+	if wide {
+		q = genAln(r, ref, alnSpec{W: w, N: n, Prof: profACGT, SNP: 0.004, Prefix: "q"})
+		for i := range q.Seqs {
+			q.Seqs[i] = tailSNPs(r, ref, blockEdgeRuns(r, q.Seqs[i]))
+			if r.P(0.5) {
+				q.Seqs[i] = mutate(r, q.Seqs[i], profTracts, 0)
+			}
+		}
+	} else {
+		q = genAln(r, ref, alnSpec{W: w, N: n, Prof: -1, SNP: 0.15, Prefix: "q", AllN: 0.08})
+	}
+	if !many && !wide {
 		for i := range q.Seqs {
 			if r.P(0.5) {
 				q.Seqs[i] = mutate(r, q.Seqs[i], profTracts, 0)
@@ -148,6 +166,9 @@ func genC10(r *Rand, tier string, ord int) *Trial {
 	}
 	t := &Trial{Kind: kind, Case: Case{Cmd: "updownlist", Files: map[string]string{"ref": ">ref\n" + ref + "\n", "query": q.FASTA(genLayout(r))}}, Params: map[string]string{}}
 	t.Runs = genRunCfgs(r, 3)
+	if wide {
+		wideRuns(t.Runs)
+	}
 	if many {
 		scaleHorizon(t.Runs, 8*n)
 		if r.P(0.5) {
